@@ -605,7 +605,7 @@ Proof.
 Qed.
 
 Lemma ex_certificate :
-  walk_ok (length w_xyz) (map norm_bond w_bonds) (tree_order (length w_xyz) (map norm_bond w_bonds)) = true /\
+  walk_ok (length w_xyz) (map norm_bond w_bonds) (pfb_walk (length w_xyz) (map norm_bond w_bonds)) = true /\
   makes_whole w_box 300 1 w_xyz (fun x => match x with 1%nat => (1, 0, 0) | _ => (0, 0, 0) end) (map norm_bond w_bonds).
 Proof.
   split; [vm_compute; reflexivity|].
